@@ -145,6 +145,21 @@ def mpz_set_si (s : St) (dest : Nat) (val : Int) : St :=
 
 /-! ### mpz_mul_2exp — mpz/mul_2exp.c -/
 
+/-- mul_2exp.c:46-68, what follows the realloc; `cnt` already reduced (`cnt %= GMP_NUMB_BITS`, :49) -/
+def mul_2exp_body (s : St) (w u : Nat) (usize : Int) (limb_cnt cnt : Nat) : St :=
+  let abs_usize := usize.natAbs
+  let wp := s.PTR w                                           -- mul_2exp.c:46
+  let wsize := abs_usize + limb_cnt                           -- mul_2exp.c:47
+  let (s, wsize) :=
+    if cnt != 0 then                                          -- mul_2exp.c:50
+      let (s, wlimb) := mpn_lshift s (wp.add limb_cnt) (s.PTR u) abs_usize cnt   -- mul_2exp.c:52
+      if wlimb != 0 then                                      -- mul_2exp.c:53
+        (s.store wp wsize wlimb, wsize + 1)                   -- mul_2exp.c:55-56
+      else (s, wsize)
+    else (MPN_COPY s (wp.add limb_cnt) (s.PTR u) abs_usize, wsize)   -- mul_2exp.c:61
+  let s := MPN_ZERO s wp limb_cnt                             -- mul_2exp.c:66
+  s.setSize w (sgn (usize < 0) wsize)                         -- mul_2exp.c:68
+
 /-- `plus` = 1 in the C (`wsize = abs_usize + limb_cnt + 1`) -/
 def mul_2exp (plus : Nat) (s : St) (w u : Nat) (cnt : Nat) : St :=
   let usize := s.SIZ u                                        -- mul_2exp.c:28
@@ -154,18 +169,7 @@ def mul_2exp (plus : Nat) (s : St) (w u : Nat) (cnt : Nat) : St :=
     let limb_cnt := cnt / 64                                  -- mul_2exp.c:41
     let wsize := abs_usize + limb_cnt + plus                  -- mul_2exp.c:42
     let s := MPZ_REALLOC s w wsize                            -- mul_2exp.c:43-44
-    let wp := s.PTR w                                         -- mul_2exp.c:46
-    let wsize := abs_usize + limb_cnt                         -- mul_2exp.c:47
-    let cnt := cnt % 64                                       -- mul_2exp.c:49
-    let (s, wsize) :=
-      if cnt != 0 then                                        -- mul_2exp.c:50
-        let (s, wlimb) := mpn_lshift s (wp.add limb_cnt) (s.PTR u) abs_usize cnt   -- mul_2exp.c:52
-        if wlimb != 0 then                                    -- mul_2exp.c:53
-          (s.store wp wsize wlimb, wsize + 1)                 -- mul_2exp.c:55-56
-        else (s, wsize)
-      else (MPN_COPY s (wp.add limb_cnt) (s.PTR u) abs_usize, wsize)   -- mul_2exp.c:61
-    let s := MPN_ZERO s wp limb_cnt                           -- mul_2exp.c:66
-    s.setSize w (sgn (usize < 0) wsize)                       -- mul_2exp.c:68
+    mul_2exp_body s w u usize limb_cnt (cnt % 64)             -- mul_2exp.c:46-68
 
 def mpz_mul_2exp (s : St) (w u : Nat) (cnt : Nat) : St := mul_2exp 1 s w u cnt
 
